@@ -12,6 +12,7 @@ from usim import time, Scope, until, instant, eternity
 from ..engine import EQ, GE, LE, LT, GT, AND, OR, NOT, IMPLIES, MAX, INF
 from ..explore import Family
 from ..kit import Log, simulate, now, classify_run_exception
+from ..probe import Probe
 
 BOUNDS = ('start in [-20,20]; delays in [0,60]; dates in [start-30, start+60]; '
           'quick: 1 activity x 3 waits (9 kinds), 2 activities x 2 waits (4 kinds), '
@@ -107,7 +108,11 @@ def fam_waits(E, k, waits, kinds, real=False):
             for i, prog in enumerate(progs):
                 scope.do(activity(i, prog))
 
-    out = simulate(root(), start=start, log=log)
+    ieee = real == 'float'
+    # IEEE mode: the monotonicity obligations need bit-level reasoning about a 64 bit adder and
+    # are left to the Int / Real families; the exact-date obligations are kept
+    out = simulate(root(), start=start, log=log,
+                   probe=Probe(check_clock=not ieee))
     bad = classify_run_exception(out.exc, allowed=())
     E.prove(bad is None, 'run-ends-normally', bad)
     if out.exc is not None:
@@ -146,7 +151,7 @@ def fam_waits(E, k, waits, kinds, real=False):
         E.prove(log.has(i, 'end') == (not dead), 'end-iff-no-never')
     # log is globally ordered in time
     prev = None
-    for e in log.events:
+    for e in ([] if ieee else log.events):
         if prev is not None:
             E.prove(GE(e[2], prev), 'log-monotone')
         prev = e[2]
@@ -280,6 +285,13 @@ FAMILIES = [
            quick=dict(k=5, waitqueue='SD'),
            thorough=dict(k=6, waitqueue='SD'),
            bounds='as many, on the SortedDict wait queue backend'),
+    Family('float_single', fam_waits,
+           quick=dict(k=1, waits=2, kinds=[DELAY, MOMENT, AFTER], real='float'),
+           bounds='IEEE double dates: 1 activity x 2 waits'),
+    Family('float_pair', fam_waits,
+           thorough=dict(k=2, waits=1, kinds=[DELAY, MOMENT, AFTER], real='float', _max_wall=1500),
+           bounds='IEEE double dates (z3 floating point, RNE): 2 activities x 1 (thorough 2) '
+                  'waits; resume date must be the correctly rounded now + d, or exactly t'),
     Family('do2', fam_do,
            quick=dict(k=2),
            thorough=dict(k=3),
